@@ -126,13 +126,13 @@ var propSpecs = []PropSpec{
 		Tune:        func(cfg *Config, tier, entry string) {}},
 	{ID: "C05", Pkgs: []string{"pubsub"},
 		BoundsQ:     "step: every option combination (unlimited, or hard limit in [1,3], soft quota in [0,hard], burst credit in {default, 0.5, 1, 2.5}), canonical prefix of <=3 Add/Remove, optional Close, then one of 9 operations (Add, Remove, Len, Close, Wait, BlockingAdd, Distributor Send/Len/Receive), queue drained and compared; tracker step (private state): one add/remove from an arbitrary valid tracker state with hard limit <=16 and symbolic Float64 credit; histories: 2-3 goroutines x <=2 operations on unlimited and capacity-1 queues, linearization search over all real-time-consistent orders, preemption bound 2; race monitor on every execution",
-		BoundsT:     "histories at preemption bound 3; prefix <=5",
+		BoundsT:     "histories at preemption bound 3; prefix <=5; 3 operations per step",
 		Outside:     "queues longer than the bounds; the amount of credit granted by a removal and the dynamic soft quota (not specified by the documentation) - after a removal an Add below the hard limit may succeed or report ErrQueueNoCredit; linearizability of all histories rests on the lock-discipline premise (race monitor) plus the one-step refinement, the history search is a cross-check within its bounds",
 		Assumptions: commonAssumptions,
 		Tune:        func(cfg *Config, tier, entry string) {}},
 	{ID: "C06", Pkgs: []string{"pubsub"},
 		BoundsQ:     "step: unlimited / fixed capacity 1..3 / quota tracker (hard 1..3, soft 0..hard), prefix of <=3 pushes at either end, optional Close, then 2 arbitrary operations out of 12 (Push, Pop, ForcePush, Wait, WaitPush at both ends, Len, Close), Len and both non-destructive walks compared with a reference deque after every step; histories: 2 goroutines, 3 operations of 12 kinds on unlimited and capacity-1 deques, linearization search, preemption bound 1; race monitor on every execution",
-		BoundsT:     "3 operations per step; histories with 3 goroutines (4 operations), preemption bound 2",
+		BoundsT:     "3 operations per step; histories at preemption bound 2",
 		Outside:     "longer deques; for the quota tracker the eviction rule is asserted only as 'at most one, from the opposite end, push then succeeds' and plain pushes below the hard limit may report ErrQueueNoCredit; the reduction to all histories is the argument of DESIGN C05/C06",
 		Assumptions: commonAssumptions,
 		Tune: func(cfg *Config, tier, entry string) {
@@ -225,9 +225,9 @@ var propSpecs = []PropSpec{
 			}
 		}},
 	{ID: "C08", Pkgs: []string{"pubsub"},
-		BoundsQ:     "lossless brokers (channel / unlimited Queue / unlimited Deque distributor, unbuffered subscriptions, 1 dispatch worker, sequential or parallel dispatch), 1 publisher with <=2 messages {concrete id, symbolic value}, <=2 subscribers (the second subscribing at a chosen point between the publishes), preemption bound 1; load-shedding brokers (bounded Queue, LIFO deque; buffered subscriptions): 3 publishes, 1 subscriber, only-published/no-duplicate clauses",
+		BoundsQ:     "lossless brokers (channel / unlimited Queue / unlimited Deque distributor, unbuffered subscriptions, 1 dispatch worker, sequential or parallel dispatch), 1 publisher with <=2 messages {concrete id, symbolic value}, <=2 subscribers (the second subscribing at a chosen point between the publishes), preemption bound 1; load-shedding brokers (bounded Queue, LIFO deque; buffered subscriptions): 3 publishes, 1 subscriber, only-published/no-duplicate clauses; Unsubscribe of the second of 2 subscribers at a chosen point, once or twice, optionally also of a stranger channel",
 		BoundsT:     "preemption bound 2",
-		Outside:     "several publishers, WorkerPoolSize>1, Unsubscribe; more messages/subscribers/preemptions",
+		Outside:     "several publishers, WorkerPoolSize>1; more messages/subscribers/preemptions",
 		Assumptions: commonAssumptions,
 		Tune: func(cfg *Config, tier, entry string) {
 			cfg.Preempt = 1
@@ -251,7 +251,7 @@ var propSpecs = []PropSpec{
 			}
 		}},
 	{ID: "C11", Pkgs: []string{"srv"},
-		BoundsQ:     "Orchestrator: 1-2 services (the first in state not-started/running/finished with outcome ok/error/panic/blocks, the second not started with ok/error), each added before or after the orchestrator started; Group: 1-2 members with 4 outcomes; WorkerPool/HandlerWorkerPool: pool size 1-2, 1-2 jobs (ok/error/panic) added before or after start; Cleanup: 1-2 cleanup functions (ok/error/panic); non-preemptive schedules (preemption bound 0: switches only where a goroutine blocks or ends)",
+		BoundsQ:     "Orchestrator: 1-2 services (the first in state not-started/running/finished with outcome ok/error/panic/blocks, the second not started with ok/error), each added before or after the orchestrator started; Group: 1-2 members with 4 outcomes; WorkerPool/HandlerWorkerPool: pool size 1-2, 1-2 jobs (ok/error/panic) added before or after start; Cleanup: 1-2 cleanup functions (ok/error/panic/io.EOF/context.Canceled); orchestrator with queued services (not started or finished, failing or not) whose context is cancelled before or right after Start; non-preemptive schedules (preemption bound 0: switches only where a goroutine blocks or ends)",
 		BoundsT:     "Cleanup at preemption bound 1 (the other entries do not complete at bound 1 within the budget: Group and WorkerPool ran past 15 min, Orchestrator past 2M paths)",
 		Outside:     "jobs racing the shutdown itself (every Add happens before Close is called); timeouts (Cleanup timeout 0); queue limits; more services/jobs",
 		Assumptions: commonAssumptions,
